@@ -1,0 +1,18 @@
+// SPDX-FileCopyrightText: 2026 The Pion community <https://pion.ly>
+// SPDX-License-Identifier: MIT
+
+//go:build verif
+
+package pacing
+
+// VerifLimiter returns the rate (bit/s) and the burst (bit) of the interceptor's token bucket as
+// the limiter itself reports them; ok is false when the interceptor was built with another pacer
+// (verification harness only; meaningful when no SetRate is in flight).
+func (i *Interceptor) VerifLimiter() (rate float64, burst int, ok bool) {
+	p, isDefault := i.limit.(*rateLimitPacer)
+	if !isDefault {
+		return 0, 0, false
+	}
+
+	return float64(p.limiter.Limit()), p.limiter.Burst(), true
+}
